@@ -57,8 +57,8 @@ try:
     assert rc == 0, "patch does not apply: " + out
     rc, out = sh("go build ./...", cwd=wt)
     meta["builds"] = rc == 0
-    tp = sorted(set(pkgs + extra_tests))
-    rc, out = sh("go test -count=1 -vet=off %s" % " ".join("./%s/..." % p for p in tp), cwd=wt)
+    tp = sorted(set(["./%s/..." % p for p in pkgs] + extra_tests))
+    rc, out = sh("go test -count=1 -vet=off %s" % " ".join(tp), cwd=wt)
     meta["existing_tests_pass"] = rc == 0
     if rc != 0:
         meta["existing_tests_log"] = out[-1500:]
